@@ -1,10 +1,13 @@
 #!/bin/bash
 # Re-runs, for every kept seed, the checks that reported it (or its own
 # property's check) against the current /verif and /repo HEAD.
+# usage: tools/recheck_all_seeds.sh [file with lines "<seed> ..." to skip]
 cd "$(dirname "$0")/.."
+SKIP="${1:-/dev/null}"
 for d in seeded/*/; do
   n=$(basename $d)
   [ -f $d/meta.json ] || continue
+  grep -q "^$n " "$SKIP" && continue
   checks=$(python3 -c "
 import json,sys
 m=json.load(open('$d/meta.json'))
